@@ -222,12 +222,14 @@ AddSignatureA == \E dst \in Reg, src \in Full, s \in Signers, meta \in Metas :
               Call("add_signature", dst, <<src, s, meta>>, Ok(AddSignature(reg[src], s, FreshId, meta)))
 SignA == \E dst \in Reg, src \in Full, s \in Signers :
               Call("sign", dst, <<src, s>>, Ok(Sign(reg[src], s, FreshId)))
-(* adversarial 'signed' assertions, assembled from parts by someone holding key s *)
+(* adversarial 'signed' assertions, assembled from parts by someone holding key s.  "Another subject" is a
+   digest of its own: not the Absent digest, which a tampered encrypted subject may declare *)
+OtherDigest == <<"X", 1>>
 ForgedSigned(e, kind, s, s2, c) ==
   LET good == SigLeaf(<<c, 1>>, s, Dg(Subject(e)))
       meta == {Assn(KV(KvNote), Str("n"))}
       wrapped == Wrap(FoldAdd(good, meta)) IN
-  CASE kind = "other_subject"    -> AddAssertion(e, KV(KvSigned), SigLeaf(<<c, 1>>, s, Absent))
+  CASE kind = "other_subject"    -> AddAssertion(e, KV(KvSigned), SigLeaf(<<c, 1>>, s, OtherDigest))
     [] kind = "unsigned_wrapper" -> AddAssertion(e, KV(KvSigned), wrapped)
     [] kind = "foreign_wrapper"  -> AddAssertion(e, KV(KvSigned),
                                        AddAssertion(wrapped, KV(KvSigned), SigLeaf(<<c, 2>>, s2, Dg(wrapped))))
@@ -236,7 +238,7 @@ ForgedSigned(e, kind, s, s2, c) ==
                                                     KV(KvSigned), SigLeaf(<<c, 3>>, s2, Dg(wrapped))))
     [] kind = "junk"             -> AddAssertion(e, KV(KvSigned), Str("junk"))
     [] kind = "junk_outer"       -> AddAssertion(e, KV(KvSigned), AddAssertion(wrapped, KV(KvSigned), Str("junk")))
-    [] kind = "inner_other"      -> LET w2 == Wrap(FoldAdd(SigLeaf(<<c, 1>>, s, Absent), meta)) IN
+    [] kind = "inner_other"      -> LET w2 == Wrap(FoldAdd(SigLeaf(<<c, 1>>, s, OtherDigest), meta)) IN
                                     AddAssertion(e, KV(KvSigned),
                                        AddAssertion(w2, KV(KvSigned), SigLeaf(<<c, 2>>, s, Dg(w2))))
     [] kind = "decorated"        -> Val(AddAssertionEnvSalted(e, Assn(KV(KvSigned), good), <<c, 9>>))
@@ -347,7 +349,12 @@ AddAttachmentA == \E dst \in Reg, src \in Full, rp \in Full, v \in Vendors, c \i
 (* the Attachments container (attachments.rs): a digest-keyed collection, added to an envelope at once *)
 AttSpecs == {<<rp, v, c>> : rp \in Full, v \in {"v1"}, c \in {NoStr, "c1"}}
 AttachContainerA == \E dst \in Reg, src \in Full : \E L \in {<<a>> : a \in AttSpecs} \cup {<<a, b>> : a \in AttSpecs, b \in AttSpecs} :
-              Call("attach_container", dst, <<src, L>>,
+              (* the container is keyed by digest: of two attachments with one digest in different forms (a
+                 payload and its obscured twin) it keeps one, which one is not specified *)
+              /\ \A i, j \in 1..Len(L) :
+                    LET x == AttachmentAssn(reg[L[i][1]], L[i][2], L[i][3])
+                        y == AttachmentAssn(reg[L[j][1]], L[j][2], L[j][3]) IN Dg(x) = Dg(y) => x = y
+              /\ Call("attach_container", dst, <<src, L>>,
                    Ok(FoldAdd(reg[src], {AttachmentAssn(reg[L[i][1]], L[i][2], L[i][3]) : i \in 1..Len(L)})))
 ObsContainer == \E src \in Full :
               Observe("obs_container", <<src>>,
@@ -436,9 +443,9 @@ ObsWalk == \E src \in Full :
               \/ Observe("obs_walk", <<src, FALSE>>, WalkStructure(reg[src], 0, "None", NoParent))
               \/ Observe("obs_walk", <<src, TRUE>>, WalkTree(reg[src], 0, NoParent))
 (* tree_format: one line per visited element: indentation by level, short id, edge label, summary *)
-ObsTreeFormat == \E src \in Full :
-              \/ Observe("obs_tree_format", <<src, FALSE>>, WalkStructure(reg[src], 0, "None", NoParent))
-              \/ Observe("obs_tree_format", <<src, TRUE>>, WalkTree(reg[src], 0, NoParent))
+ObsTreeFormat == \E src \in Full : \E T \in {{}} \cup {{d} : d \in AllDigests(reg[src])} \cup {AllDigests(reg[src])} :
+              \/ Observe("obs_tree_format", <<src, FALSE, T>>, Highlighted(WalkStructure(reg[src], 0, "None", NoParent), T))
+              \/ Observe("obs_tree_format", <<src, TRUE, T>>, Highlighted(WalkTree(reg[src], 0, NoParent), T))
 (* the text renderings: format, format_flat, diagnostic, hex, tree_format, UR: they return (C16), the counts
    of obscured-element markers agree with the structure, and format / format_flat are the layout of
    Queries!Notation *)
